@@ -120,6 +120,8 @@ int SimulateLc3::run(int max_cycles, int step)
 
   printf("Running... Press Ctl-C to break.\n");
 
+  stop_running = false;
+
   while (stop_running == false)
   {
     pc_current = pc;
